@@ -335,6 +335,17 @@ def rand_addr(rng, v6=None):
         a.ip = 0
     elif rng.chance(1, 12):
         a.ip = (1 << (128 if a.v6 else 32)) - 1
+    elif a.v6 and rng.chance(1, 6):
+        # special-form IPv6 addresses: IPv4-mapped ::ffff:a.b.c.d, IPv4-compatible ::a.b.c.d, loopback, link-local
+        r = rng.below(4)
+        if r == 0:
+            a.ip = (0xFFFF << 32) | rng.below(1 << 32)
+        elif r == 1:
+            a.ip = rng.below(1 << 32)
+        elif r == 2:
+            a.ip = 1
+        else:
+            a.ip = (0xFE80 << 112) | rng.below(1 << 64)
     return a
 
 
